@@ -36,8 +36,12 @@ partial def selOfJson (j : J) : Sel :=
   | _ => .inline (optStr j "on") dirs (sub.natD "id") sels
 
 def varDefOfJson (j : J) : VarDef :=
-  { name := j.strD "n", type := Driver.tyOfJson (j.getD "t"),
-    default := match j.getD "d" with | .null => none | d => some (valueOfJson d) }
+  let dirs := (j.arrD "dirs").map dirOfJson
+  let dflt := match j.getD "d" with | .null => none | d => some (valueOfJson d)
+  -- the parser never yields a variable in the directives of a variable definition (`Directives[Const]`)
+  if h : dirs.all Dir.isConst = true then
+    { name := j.strD "n", type := Driver.tyOfJson (j.getD "t"), default := dflt, dirs := dirs, dirsConst := h }
+  else { name := j.strD "n", type := Driver.tyOfJson (j.getD "t"), default := dflt }
 
 def defOfJson (j : J) : Def :=
   let dirs := (j.arrD "dirs").map dirOfJson
@@ -88,6 +92,11 @@ def withChecks (j c : J) : J :=
   | .obj kvs => .obj (kvs ++ [("checks", c)])
   | j => j
 
+def withKey (j : J) (k : String) (v : J) : J :=
+  match j with
+  | .obj kvs => .obj (kvs ++ [(k, v)])
+  | j => j
+
 def rulesOfJson (j : J) : List Rule :=
   match j.get? "rules" with
   | some (.arr a) => a.filterMap fun x => x.asStr?.bind Rule.ofName
@@ -101,7 +110,13 @@ def handle (j : J) : J :=
     let schemaOk := schemaOutputsB schema
     .arr ((j.arrD "docs").map fun d =>
       let doc := docOfJson (d.getD "doc")
-      withChecks (memoToJson (runMemo { schema, fixes, rules := rulesOfJson d } doc)) (checksToJson schema schemaOk doc))
+      let rules := rulesOfJson d
+      let ans := withChecks (memoToJson (runMemo { schema, fixes, rules } doc)) (checksToJson schema schemaOk doc)
+      -- the rule ALONE: also the function the theorems of Props/C06_overlap_memo*.lean are stated about
+      -- (`overlapMemoRun`: the memoised search folded over `Spec.typedNodes`), for the cross-check with the chain
+      if rules == [Rule.overlappingFieldsCanBeMerged] then
+        withKey ans "memo_alone" (J.ofNat (overlapMemoRun schema fixes doc).1)
+      else ans)
   | "rules" => J.ofStrs (Rule.all.map (·.name))
   | _ => .obj [("error", .str "bad-op")]
 
